@@ -118,7 +118,11 @@ Section L22.
     if cosigning && negb (forallb (fun ip => psig_ok fl inp x (fst ip) (snd ip)) (combine (parties (in_n inp)) ps))
     then None
     else
-      let r := if cosigning then big_r inp
+      (* cosigning: the cosigner's uncorrected aggregate, passed through
+         variant.CorrectPartialNonceCommitmentParity(bigR, bigR) (fix 087e5ff: before it the
+         uncorrected aggregate was used and Mina signing failed whenever R had odd y);
+         otherwise the sum of the corrected partial commitments *)
+      let r := if cosigning then correct_nonce fl (big_r inp) (big_r inp)
                else fold_right (fun p acc => snd (fst p) + acc) (f0 K) ps in
       let s := fold_right (fun p acc => snd p + acc) (f0 K) ps in
       let needs_y := match fl with Vanilla _ => false | _ => true end in
